@@ -329,7 +329,11 @@ _poll_add_(struct qb_loop *l,
 		*pe_pt = pe;
 		return 0;
 	} else {
-		pe->state = QB_POLL_ENTRY_EMPTY;
+		/*
+		 * forget the descriptor as well: a later qb_loop_poll_del()
+		 * looks entries up by number and must not stop at this one
+		 */
+		_poll_entry_empty_(pe);
 		return res;
 	}
 }
